@@ -136,6 +136,28 @@ func verifC18(nfiles, nlines, nameLen, lineLen int) {
 	verifCover("c18/run")
 }
 
+// a source line at the limit of bufio.Scanner's default buffer (64 KiB) followed by a test function:
+// the generators must still see the function (or fail loudly), in both modes alike
+func verifC18LongLine() {
+	n := []int{65535, 65536, 70000}[verifChoose(3)]
+	long := make([]byte, n)
+	for i := range long {
+		long[i] = 'x'
+	}
+	long[0], long[1] = '/', '/'
+	content := "func testA() bool {\n" + string(long) + "\nfunc failing_testB() bool {\n"
+	verifSetDir("/pkg", []string{"a.go"}, []string{content})
+	goOut, goCode := verifRun("go")
+	coqOut, coqCode := verifRun("coq")
+	loud := goCode != -1 && coqCode != -1 // both refuse the input with a non-zero status
+	wantGo := goHeader + "func (suite *GoTestSuite) TestA() {\n\td := disk.NewMemDisk(30)\n\tdisk.Init(d)\n\tsuite.Equal(true, testA())\n}\n\n" +
+		"func (suite *GoTestSuite) TestB() {\n\td := disk.NewMemDisk(30)\n\tdisk.Init(d)\n\tsuite.Equal(true, failing_testB())\n}\n\n" + goFooter
+	wantCoq := coqHeader + "(* a.go *)\nExample testA_ok : testA #() ~~> #true := t.\nFail Example testB_ok : failing_testB #() ~~> #true := t.\n\n"
+	verifAssert("longline/go-complete-or-refused", verifOr(loud, goOut == wantGo))
+	verifAssert("longline/coq-complete-or-refused", verifOr(loud, coqOut == wantCoq))
+	verifCover("c18/longline")
+}
+
 func verifC18OneFile()  { verifC18(1, 1+verifTier(), 9, 20) }
 func verifC18TwoFiles() { verifC18(2, 1, 9, 12+7*verifTier()) }
 
